@@ -1,18 +1,20 @@
-\* faithful to the current code for H13: RevertsJustified must FAIL
+\* design AS CODED for H13 (revertTask(n-2) after ErrParentDoesNotMatchHead): RevertsJustified must FAIL.
+\* Measured: counterexample of 29 states after ~17 000 distinct states, < 10 s.
 CONSTANTS
   InitLen = 3
-  MaxLen = 4
-  MaxSrcSteps = 2
-  MaxReorgs = 2
+  MaxLen = 3
+  MaxSrcSteps = 1
+  MaxReorgs = 1
   MaxNew = 1
   W = 2
   WV = 2
   Lag = 0
-  MaxFaults = 1
+  MaxFaults = 0
   MaxPolls = 1
   FixH13 = FALSE
   FixRevertVerify = TRUE
   FixUnderflow = TRUE
+  Fine = FALSE
 INIT Init
 NEXT Next
 INVARIANTS TypeOK LocalIsSourceBlocks ReorgExact
